@@ -101,6 +101,30 @@ impl Planner {
         }
     }
 
+    /// Verification-only entry point (`cfg(kani)`) to the private pruning decision.
+    #[cfg(kani)]
+    pub fn verif_check_zone_map_for_predicate(&self, predicate: &LogicalExpression) -> Option<bool> {
+        self.check_zone_map_for_predicate(predicate)
+    }
+
+    /// Verification-only entry point (`cfg(kani)`) to the private range-pattern extraction.
+    #[cfg(kani)]
+    pub fn verif_extract_between_predicate(
+        &self,
+        predicate: &LogicalExpression,
+    ) -> Option<(String, String, Value, Value, bool, bool)> {
+        self.extract_between_predicate(predicate)
+    }
+
+    /// Verification-only entry point (`cfg(kani)`) to the private single-bound extraction.
+    #[cfg(kani)]
+    pub fn verif_extract_range_predicate(
+        &self,
+        predicate: &LogicalExpression,
+    ) -> Option<(String, String, BinaryOp, Value)> {
+        self.extract_range_predicate(predicate)
+    }
+
     /// Returns the viewing epoch for this planner.
     #[must_use]
     pub fn viewing_epoch(&self) -> EpochId {
